@@ -108,7 +108,20 @@ SPECS = {
 }
 
 
+def all_roles(spec):
+  r = set(spec["weights"].values())
+  if spec.get("rnn"):
+    r.add("state")
+  return r
+
+
 def make_layer(ci, spec, quantized, pe):
+  """quantized: True (every quantizer set), False (none) or the set of
+  roles whose quantizer is set."""
+  if quantized is True:
+    quantized = all_roles(spec)
+  elif quantized is False:
+    quantized = set()
   o = Obj(ci)
   a = o.attrs
   for attr, role in spec["weights"].items():
@@ -116,11 +129,13 @@ def make_layer(ci, spec, quantized, pe):
     qattr = {"depthwise": "depthwise_quantizer",
              "pointwise": "pointwise_quantizer"}.get(role,
                                                      role + "_quantizer")
-    a[qattr] = ("quantized_bits(4)" if quantized else None)
-    a[qattr + "_internal"] = qm(role) if quantized else None
+    a[qattr] = ("quantized_bits(4)" if role in quantized else None)
+    a[qattr + "_internal"] = qm(role) if role in quantized else None
   if spec.get("rnn"):
-    a["state_quantizer"] = "quantized_bits(4)" if quantized else None
-    a["state_quantizer_internal"] = qm("state") if quantized else None
+    a["state_quantizer"] = "quantized_bits(4)" if "state" in quantized \
+        else None
+    a["state_quantizer_internal"] = qm("state") if "state" in quantized \
+        else None
     a["units"] = 4
     a["use_bias"] = True
     a["dropout"] = 0.0
@@ -248,7 +263,7 @@ def variants():
   return out
 
 
-def rule_layers(rep, repo):
+def rule_layers(rep, repo, tier="quick"):
   n = 0
   for qual, spec, vname in variants():
     ci = repo.classes.get(qual)
@@ -256,9 +271,19 @@ def rule_layers(rep, repo):
       raise AnalysisError("anchor-missing class %s" % qual)
     unit = "%s::%s.call" % (ci.module.relpath, ci.name)
     rep.unit(unit)
-    for quantized in (True, False):
-      cfg = "%s(%s%s)" % (ci.name, "all quantizers set" if quantized
-                          else "no quantizers", "," + vname if vname else "")
+    roles = sorted(all_roles(spec))
+    settings = [(True, "all quantizers set"), (False, "no quantizers")]
+    if tier == "thorough" and len(roles) > 1:
+      # one quantizer at a time, and all but one
+      for r in roles:
+        settings.append((frozenset([r]), "only %s quantizer set" % r))
+        if len(roles) > 2:
+          settings.append((frozenset(roles) - {r},
+                           "all but the %s quantizer set" % r))
+    for quantized, qlabel in settings:
+      qset = set(roles) if quantized is True else (
+          set() if quantized is False else set(quantized))
+      cfg = "%s(%s%s)" % (ci.name, qlabel, "," + vname if vname else "")
       try:
         pe, o, out, owner, fn = eval_call(repo, ci, spec, quantized)
       except PyRaise as e:
@@ -279,7 +304,7 @@ def rule_layers(rep, repo):
         rep.check(bool(parents), "R1", unit, "weight-unused:" + attr,
                   "%s: the weight %s does not reach the output" % (cfg, attr),
                   loc=loc, instance=cfg)
-        if quantized:
+        if role in qset:
           bad = [p for p in parents if p != "Q_" + role]
           rep.check(not bad, "R1", unit,
                     "weight-not-through-own-quantizer:" + attr,
@@ -330,7 +355,7 @@ def rule_layers(rep, repo):
                       (cfg, spec["op"], k, attrs.get(k, "<absent>"), v),
                       loc=loc, instance=cfg)
       # R5 reported = applied
-      if quantized:
+      if qset:
         gq_owner, gq = ci.find_method("get_quantizers")
         if gq is not None:
           try:
@@ -346,7 +371,7 @@ def rule_layers(rep, repo):
           except PyRaise as e:
             rep.fail("R5", unit, "get_quantizers-raises", "raises %s" % e,
                      instance=cfg)
-      if len(rep.samples) < 8 and quantized:
+      if len(rep.samples) < 8 and quantized is True:
         from ..pe import show_term
         rep.sample({"layer": ci.name, "output_term": show_term(term)[:400]})
   rep.extra["layer_calls_evaluated"] = n
@@ -464,7 +489,7 @@ def run(rep, repo, tier):
                      "them the same arguments")
   rep.assumptions.append("numerical equality with the stock Keras layer is "
                          "not computed")
-  rule_layers(rep, repo)
+  rule_layers(rep, repo, tier)
   rule_quantizers_list(rep, repo)
   rule_dead_options(rep, repo)
   rule_pooling(rep, repo)
